@@ -118,9 +118,15 @@ func ruleC12R2(r *Run) {
 					if bigEntry != nil {
 						continue
 					}
-					if rl.X == "$u" && rl.Op == "<=" && rl.Y == smallStr {
+					// the cutoff is the test whose small side returns u itself (not, say, a clamp of the small-value
+					// loop's bound, which compares the same two things)
+					returnsU := func(sb *ssa.BasicBlock) bool {
+						ret, ok := sb.Instrs[len(sb.Instrs)-1].(*ssa.Return)
+						return ok && len(ret.Results) == 1 && p.expr(p.res(ret, 0)) == "$u"
+					}
+					if rl.X == "$u" && rl.Op == "<=" && rl.Y == smallStr && returnsU(b.Succs[0]) {
 						bigEntry = b.Succs[1]
-					} else if rl.X == "$u" && rl.Op == ">" && rl.Y == smallStr {
+					} else if rl.X == "$u" && rl.Op == ">" && rl.Y == smallStr && returnsU(b.Succs[1]) {
 						bigEntry = b.Succs[0]
 					}
 				}
